@@ -296,6 +296,53 @@ func ruleC10scan(c *Ctx) []*report.Result {
 		}
 	}
 	r.Check(tests == 2, "escape.InternalEscapeBytes / two marker tests", c.P.Pos(fn.Pos()), fmt.Sprintf("found %d marker tests, want one for each marker", tests))
+	// iterations that matched nothing: the scan moves on by exactly one byte
+	// and neither the copied-up-to index nor the output changes.
+	var special []*ssa.BasicBlock // true successors of marker tests and the line-feed branch
+	for _, b := range fn.Blocks {
+		for _, ins := range b.Instrs {
+			if call, ok := ins.(*ssa.Call); ok {
+				if f := call.Common().StaticCallee(); f != nil {
+					switch f.String() {
+					case "bytes.Equal":
+						if _, isIf := b.Instrs[len(b.Instrs)-1].(*ssa.If); isIf {
+							special = append(special, b.Succs[0])
+						}
+					case "bytes.HasSuffix":
+						special = append(special, b)
+					}
+				}
+			}
+		}
+	}
+	plain := 0
+	for _, p := range s.latch.Preds {
+		isSpecial := false
+		for _, sb := range special {
+			if sb == p || sb.Dominates(p) {
+				isSpecial = true
+			}
+		}
+		if isSpecial {
+			continue
+		}
+		plain++
+		okPlain := edgeFrom(s.latchI, p) == ssa.Value(s.iPhi) && edgeFrom(s.latchK, p) == ssa.Value(s.kPhi) && edgeFrom(s.latchRes, p) == ssa.Value(s.resPhi)
+		pos := c.P.Pos(fn.Pos())
+		if len(p.Instrs) > 0 {
+			pos = c.P.Pos(p.Instrs[len(p.Instrs)-1].Pos())
+		}
+		r.Check(okPlain, "escape.InternalEscapeBytes / byte that starts no marker", pos, "an iteration that found neither a marker nor a line feed changes the scan index, the copied-up-to index or the output: bytes are skipped without being examined (a marker or line feed right after them is missed)")
+	}
+	r.Check(plain >= 1, "escape.InternalEscapeBytes / plain iteration", c.P.Pos(fn.Pos()), "no plain (nothing found) path through the scan loop recognised")
+	// and the loop's own step is +1
+	stepOK := false
+	for _, e := range s.iPhi.Edges {
+		if d, ok := plusConst(e, s.latchI); ok && d == 1 {
+			stepOK = true
+		}
+	}
+	r.Check(stepOK, "escape.InternalEscapeBytes / loop step", c.P.Pos(fn.Pos()), "the scan loop must advance by exactly one byte per iteration")
 	// dangling tail: must-pass-through
 	var dec *ssa.Call
 	for _, b := range fn.Blocks {
